@@ -1,8 +1,8 @@
 /-
   MellonDriver.Rank — ops of C10.
 
-    selrank Q n <num den>×n (I r | F num den)   → ok kept | Internal:IndexError     (exact rationals)
-    selrank D n <bits>×n    (I r | F bits)      → ok kept | Internal:IndexError     (IEEE doubles)
+    selrank Q n <num den>×n (I r | F num den)   → ok kept | ValueError     (exact rationals)
+    selrank D n <bits>×n    (I r | F bits)      → ok kept | ValueError     (IEEE doubles)
     lowrank n p <V bits n×n> <s bits n>          → ok <L bits n×p>                    (L = V_p √S_p)
 
   Eigenvalues are given in DESCENDING order (the reverse of what `eigh` returns).
@@ -28,7 +28,7 @@ def pListN {β : Type} (n : Nat) (p : P β) : P (List β) := do
 
 def outKept : Option Nat → String
   | some k => s!"ok {k}"
-  | none => "Internal:IndexError"
+  | none => "ValueError"
 
 end Rnk
 open Rnk in
